@@ -50,6 +50,8 @@ pub struct Report {
     pub problems: Vec<(String, String)>,
     /// offending values of the invalid-term problems (same order as the invalid-term entries)
     pub values: Vec<String>,
+    /// polls of the source after it had reported an error
+    pub repolls: u64,
 }
 
 /// "…/rio/src/model.rs:45" -> "rio/src/model.rs"; registry crates keep their versioned directory name.
@@ -182,6 +184,14 @@ fn drive_triples<S: TripleSource>(mut src: S, strict: bool, c: Catcher, rep: &mu
     });
     if let Err(e) = r {
         rep.source_error = Some(e.to_string().chars().take(200).collect());
+        // a consumer may poll a failed source again (a drain loop that logs errors and goes on):
+        // whatever it answers, it must not panic (what it yields then is not judged)
+        for _ in 0..3 {
+            rep.repolls += 1;
+            if let Ok(false) = src.try_for_some_triple(|_| -> Result<(), Infallible> { Ok(()) }) {
+                break;
+            }
+        }
     }
 }
 
@@ -198,6 +208,12 @@ fn drive_quads<S: QuadSource>(mut src: S, strict: bool, c: Catcher, rep: &mut Re
     });
     if let Err(e) = r {
         rep.source_error = Some(e.to_string().chars().take(200).collect());
+        for _ in 0..3 {
+            rep.repolls += 1;
+            if let Ok(false) = src.try_for_some_quad(|_| -> Result<(), Infallible> { Ok(()) }) {
+                break;
+            }
+        }
     }
 }
 
@@ -231,7 +247,22 @@ pub fn run_target(syntax: &str, base: Option<&str>, data: &[u8], c: Catcher) -> 
         })
     };
     if let Err(p) = r {
-        let key = format!("panic/{}", site_key(&p));
+        // a panic while polling a source that had already reported an error is keyed apart
+        // (so that a recorded finding about re-polling never covers a panic on the first pass)
+        // (rio_turtle's parsers keep the partially built statement of a failed step and trip over it at the
+        // next step, in a dozen assertion sites: one root cause, one key per syntax)
+        let key = if rep.repolls > 0 {
+            let site = site_key(&p);
+            if ["rio_turtle-", "rio_xml-", "rio_api-", "oxiri-", "oxilangtag-", "quick-xml-"].iter().any(|c| site.starts_with(c)) {
+                // (the dirty state also reaches the crates rio calls, e.g. a buffer holding two IRIs
+                // glued together is sliced by oxiri in the middle of a character)
+                "panic-after-error/rio_turtle".to_string()
+            } else {
+                format!("panic-after-error/{site}")
+            }
+        } else {
+            format!("panic/{}", site_key(&p))
+        };
         problem(&mut rep, &key, format!("parser panicked: {p}"));
     }
     // refine the keys of invalid-term problems with the trigger found in the *input document*,
